@@ -862,3 +862,71 @@ func c09EvictsCache(c *Ctx) {
 		c.R.Unk(rule, name+": deleted nodes leave the cache", c.P.Pos(dh.Pos()), "no DELETE of node objects found")
 	}
 }
+
+// ---- C09.gc-retires-first: nothing vacuum is about to gut is still listed as current ----------------
+
+func init() {
+	register(&Rule{Name: "C09.gc-retires-first", Min: 1, Run: c09RetiresFirst,
+		Doc: "before DeleteHistoricVersions deletes a node object, every retired version whose history it deletes has been removed from current/: retirement is best-effort, and a listed version with missing nodes makes every later open fail"})
+	byProp["C09"] = append(byProp["C09"], "C09.gc-retires-first")
+	byProp["C14"] = append(byProp["C14"], "C09.gc-retires-first")
+	byProp["C03"] = append(byProp["C03"], "C09.gc-retires-first")
+	explain["C09"] += " gc-retires-first: Commit's DELETE of a superseded version under current/ is best-effort (its failure is swallowed: no failure after the commit point), so a version this handle regards as history can still be listed; once vacuum has deleted some of the nodes only that version needs, every open that lists it fails in the merge ('merge: load … NoSuchKey') and the table cannot be attached any more. DeleteHistoricVersions therefore issues a DELETE under current/ for every name of the retired list, with its error honoured, on every path before the first node DELETE."
+	explain["C14"] += " gc-retires-first (shared with C09): 'once the fault clears, a new open sees all committed data' after a swallowed retirement failure followed by an interrupted vacuum."
+}
+
+func c09RetiresFirst(c *Ctx) {
+	const rule = "C09.gc-retires-first"
+	dh := mustFunc(c, "kv", "", "DeleteHistoricVersions")
+	rootF := mustField(c, "kv", "DB", "root")
+	persistF := mustField(c, "kv", "DB", "persist")
+	if dh == nil || rootF == nil || persistF == nil {
+		return
+	}
+	name := core.FuncName(dh)
+	var unlist, nodes []ssa.CallInstruction
+	for _, d := range deleteCalls(dh) {
+		t := deleteTargetOf(d)
+		if t == nil {
+			continue
+		}
+		switch {
+		case pathHas(t.PrefixThrough, persistF):
+			nodes = append(nodes, d)
+		case pathHas(t.PrefixThrough, rootF) && retiredListElement(dh, t.KeySuffix):
+			unlist = append(unlist, d)
+		}
+	}
+	if len(nodes) == 0 {
+		c.R.Unk(rule, name+": retired versions are unlisted first", c.P.Pos(dh.Pos()), "no DELETE of node objects found")
+		return
+	}
+	good := len(unlist) > 0
+	why := "no DELETE under current/ for the names of the retired list: a version whose best-effort retirement failed stays listed while vacuum deletes its nodes — entries_per_node=2: insert 24 rows; 'update … where a=3' with the DELETE under root/current/ refused; another update; s3db_vacuum interrupted at its 2nd node DELETE: every fresh open fails with 'merge: load: persist load …: NoSuchKey'"
+	for _, u := range unlist {
+		for _, nd := range nodes {
+			// the un-listing loop is finished before the first node is deleted: the node DELETE is not
+			// reachable without passing the loop, and the loop is not reachable from it
+			if an.ReachableFromBlock(nd.Block(), u.Block(), nil) {
+				good = false
+				why = "a node object can be deleted before every retired version is removed from current/"
+			}
+			if !an.ReachableFromBlock(u.Block(), nd.Block(), nil) {
+				good = false
+				why = "the node deletions are not on the path that un-lists the retired versions"
+			}
+		}
+		if ev, hasErr := an.ErrResult(u); !hasErr || ev == nil {
+			good = false
+			why = "the result of the DELETE under current/ is not looked at: if it fails the nodes are deleted all the same"
+		} else if fl := an.AnalyzeErr(dh, ev); fl.Verdict != an.ErrPropagated {
+			good = false
+			why = "a failed DELETE under current/ does not stop the vacuum (" + fl.Verdict.String() + ")"
+		}
+	}
+	pos := c.P.Pos(nodes[0].Pos())
+	if len(unlist) > 0 {
+		pos = c.P.Pos(unlist[0].Pos())
+	}
+	c.R.Cond(good, rule, name+": retired versions are unlisted first", pos, "DELETE current/<name> for every retired name, error honoured, before the first node DELETE", why)
+}
